@@ -600,10 +600,9 @@ where
     fn execute(&self, _problem: &P, state: &mut State<P>) -> ExecResult<()> {
         let mut populations = state.populations_mut();
         for solution in populations.current_mut().as_solutions_mut() {
-            let [start, end]: [_; 2] = (0..solution.len())
-                .choose_multiple(&mut *state.random_mut(), 2)
-                .try_into()
-                .unwrap();
+            let mut bounds = (0..solution.len()).choose_multiple(&mut *state.random_mut(), 2);
+            bounds.sort_unstable();
+            let [start, end]: [_; 2] = bounds.try_into().unwrap();
             solution[start..end].reverse();
         }
         Ok(())
